@@ -280,7 +280,10 @@ def row_ref(tree, get, t):
                 return v + h if (tt is not None and name == n0 and tt == t0) else v
             return E.ev(tree, g2, t)
         dr = E.richardson(fh, 0.0, h=2e-4)
-        if not abs(dr - d1) <= 2e-5 * scale:
+        # a difference quotient of a value v carries a rounding error of about eps*|v|/h: at evaluation points where
+        # some other term of the tree is astronomically large (an explosive first-order continuation read back from
+        # the data array) it says nothing about this derivative, and the two rule sets remain as the cross-check
+        if not abs(dr - d1) <= 2e-5 * scale + 1e-10 * abs(value):
             raise HarnessError("Richardson self-check failed on %s wrt %r at t=%d: rule %r, difference %r"
                                % (E.render(tree), occ, t, d1, dr))
         out[occ] = (d1, mag)
